@@ -29,7 +29,8 @@ from .typescript_metrics_calculator import TypeScriptMetricsCalculator
 
 def header_start(class_node: Any) -> tuple[int, int]:
     """Return (row, column) of the class header, skipping decorators that precede it."""
-    header = next((child for child in class_node.children if child.type != "decorator"), class_node)
+    before_header = ("decorator", "comment")
+    header = next((c for c in class_node.children if c.type not in before_header), class_node)
     return header.start_point[0], header.start_point[1]
 
 
